@@ -21,6 +21,14 @@ def make_cases(sch, tier, rng):
         expect += ["val " + txt, "rest 00"]
         cases.append({"id": "p%d" % i, "script": script, "expect": expect,
                       "what": "%s written and read back member for member" % nm, "meta": {"kind": nm}})
+    # an object that has been read into before: read() starts from the reset state, the second result must not depend on the first
+    import p_C08
+    for i in range(150 if tier == "quick" else 6000):
+        nm = p_C08.NAMES[i % len(p_C08.NAMES)]; t = sch[nm]
+        v1 = schema.gen_val(t, rng, small=True, empty_bias=0.05); v2 = schema.gen_val(t, rng, small=True, empty_bias=0.5)
+        cases.append({"id": "q%d" % i, "script": ["S rr %s %s %s" % (nm, schema.enc(t, v1).hex() or "-", schema.enc(t, v2).hex() or "-")],
+                      "expect": ["val " + schema.show(t, v2), "rest -"],
+                      "what": "%s read into an object that held another value before" % nm, "meta": {"kind": "reread/" + nm}})
     return cases
 
 def to_script(c): return common.case_script(c)
@@ -36,5 +44,6 @@ def run(ctx):
         "members absent: present-but-empty CollectionParameters), boundary integers of each declared width, opcode / RR-type lists incl. "
         "unassigned values, empty and long strings.  Each value is written by the library, the bytes compared with an independent Python "
         "encoder, read back by the library and compared member for member; then the library reads the Python encoding followed by a "
-        "trailing byte.  distinct = distinct scripts", diffs, fails)
+        "trailing byte; and each of the 19 structures read into an object that already holds another value (read() must start from the reset state: "
+        "a member absent the second time must not keep its first value).  distinct = distinct scripts", diffs, fails)
     return {"diffs": diffs, "fails": fails, "to_script": to_script}
